@@ -4,7 +4,7 @@
   -> correspondence (implementation vs executable Coq model, evaluated by coqc/vm_compute)
   -> witness search on disagreement -> VIOLATION / KNOWN-FINDING lines -> evidence file.
 """
-import os, sys, re, json, time, hashlib, random, subprocess, fcntl, shutil, tempfile, traceback
+import os, time, sys, re, json, time, hashlib, random, subprocess, fcntl, shutil, tempfile, traceback
 from pathlib import Path
 from concurrent.futures import ThreadPoolExecutor
 
@@ -232,8 +232,10 @@ class Ctx:
       rc, out = sh(['timeout', '600', 'coqc', '-Q', 'theories', 'PV', str(f.relative_to(COQ))], cwd=COQ, timeout=660)
       return rc, out
     bad = []
+    t0 = time.time()
     with ThreadPoolExecutor(max_workers=jobs) as ex:
       results = list(ex.map(run, files))
+    self.extra.setdefault('coq_evaluation_wall_s', {})[name] = round(time.time() - t0, 1)
     for k, (rc, out) in enumerate(results):
       if rc != 0:
         raise RuntimeError(f'coqc failed on cases file {files[k]}:\n{out[-1500:]}')
